@@ -13,7 +13,7 @@ tdir=$V/.target/alt-$tag
 if [ ! -d $tdir ]; then cp -a --reflink=auto $V/.target/main $tdir; fi
 for chk in "$@"; do
   o=$(cd $V && VERIF_REPO=$wt VERIF_OUT=$out VERIF_SEED=${VERIF_SEED:-0} ./check $chk --tier ${TIER:-quick} 2>&1); rc=$?
-  echo "$id $chk rc=$rc viol=$(echo "$o" | grep -c '^VIOLATION') | $(echo "$o" | grep '^VIOLATION' | head -2 | cut -c1-260)"
+  echo "$id $chk rc=$rc viol=$(echo "$o" | grep -c '^VIOLATION') hits=$(echo "$o" | tail -1 | grep -o '[0-9]* new violation' | grep -o '[0-9]*' || echo 0) | $(echo "$o" | grep '^VIOLATION' | head -2 | cut -c1-260)"
   [ $rc = 2 ] && echo "$o" | tail -5
 done
 git -C /repo worktree remove --force $wt; rm -rf $tdir $V/work/alt/$tag $V/.target/alt-$tag*
